@@ -136,6 +136,10 @@ def _index(kind, n):
         return pd.Index(pd.Timestamp("2024-01-01") + pd.to_timedelta(i * 6, unit="h"), name="ix")
     if kind == "dt_off":  # the first timestamp is not on the grid of any requested frequency
         return pd.Index(pd.Timestamp("2024-01-01 05:00") + pd.to_timedelta(i * 6, unit="h"), name="ix")
+    if kind == "dt_ms":  # ns resolution with a millisecond part: the end points are not exactly representable in float64
+        return pd.Index((pd.Timestamp("2024-01-01 00:00:00.123") + pd.to_timedelta(i * 6, unit="h")).as_unit("ns"), name="ix")
+    if kind == "bigint":  # int64 labels above 2**53 (epoch nanoseconds, snowflake ids): not exactly representable in float64
+        return pd.Index(2**60 + 1 + i * 1001, dtype="int64", name="ix")
     raise KeyError(kind)
 
 
@@ -152,7 +156,7 @@ def r_case(case, common, out):
             if isinstance(nin, (list, tuple)):
                 bounds = np.cumsum([0] + list(nin))
                 pieces = [pdf.iloc[a:b] for a, b in zip(bounds, bounds[1:])]
-                divs = tuple(p.index[0] for p in pieces) + (pieces[-1].index[-1],) if kind in ("int", "float", "str", "dt", "dt_off") else None
+                divs = tuple(p.index[0] for p in pieces) + (pieces[-1].index[-1],) if kind in ("int", "float", "str", "dt", "dt_off", "dt_ms", "bigint") else None
                 df = dx.from_map(lambda p: p, pieces, meta=pdf.iloc[:0], divisions=divs, enforce_metadata=False)
             else:
                 df = dx.from_pandas(pdf, npartitions=nin, sort=True)
@@ -178,11 +182,17 @@ def r_case(case, common, out):
                     nd = [d[0], pdf.index[len(pdf) // 2], d[-1], d[-1]]
                 elif arg == "same":
                     nd = d
+                elif arg == "unsorted":
+                    # divisions that are not increasing cannot be honoured by any layout: the request must be rejected
+                    x, y = pdf.index[len(pdf) // 3], pdf.index[2 * len(pdf) // 3]
+                    if not (d[0] < x < y < d[-1]):
+                        return
+                    nd = [d[0], y, x, d[-1]]
                 q = df.repartition(divisions=nd)
             elif what == "force":
                 d = list(old)
-                lo = d[0] - 2 if kind in ("int", "dupint", "dupmax", "float") else d[0]
-                hi = d[-1] + 3 if kind in ("int", "dupint", "dupmax", "float") else d[-1]
+                lo = d[0] - 2 if kind in ("int", "dupint", "dupmax", "float", "bigint") else d[0]
+                hi = d[-1] + 3 if kind in ("int", "dupint", "dupmax", "float", "bigint") else d[-1]
                 q = df.repartition(divisions=[lo, d[len(d) // 2], hi], force=True)
             elif what == "partition_size":
                 q = df.repartition(partition_size=arg)
@@ -190,8 +200,13 @@ def r_case(case, common, out):
                 q = df.repartition(freq=arg)
             elif what == "align":
                 return _align_case(out, df, pdf, arg, sig, replay)
-            parts = [p.compute() for p in q.to_delayed()]
-            whole = pd.concat(parts) if parts else pdf.iloc[:0]
+            if (what, arg) == ("divisions", "unsorted"):
+                # observed the way a user does: to_delayed() passes through the legacy collection class, whose own
+                # validation of the divisions would hide an acceptance by repartition() itself
+                whole, parts = q.compute(scheduler="sync"), None
+            else:
+                parts = [p.compute() for p in q.to_delayed()]
+                whole = pd.concat(parts) if parts else pdf.iloc[:0]
         except (ValueError, NotImplementedError, TypeError) as ex:
             # an explicit rejection is allowed only for requests the input cannot satisfy
             satisfiable = not (what == "divisions" and kind in ("dupint", "dupmax") and arg in ("finer", "shifted"))
@@ -204,6 +219,11 @@ def r_case(case, common, out):
         except Exception as ex:
             viol(out, "C13.R.repartition:raises", sig, f"{type(ex).__name__}: {str(ex)[:200]}", replay)
             return
+    if what == "divisions" and arg == "unsorted":
+        bump(out, "C13.R.repartition:rows-order-divisions", sig, rule="index dtype x input layout x request")
+        a = whole.v.tolist()
+        viol(out, "C13.R.repartition:accepts-an-unsatisfiable-request", sig, f"divisions {[str(x) for x in nd]} are not increasing, no error; reported divisions {tuple(str(x) for x in q.divisions)}; {len(pdf)} rows in, {len(a)} out", replay)
+        return
     bump(out, "C13.R.repartition:rows-order-divisions", sig, rule="index dtype x input layout x request (npartitions up/down, divisions coarser/finer/shifted/repeated last, force, partition_size, freq)")
     if whole.v.tolist() != pdf.v.tolist():
         a, b = whole.v.tolist(), pdf.v.tolist()
@@ -321,13 +341,13 @@ def run(run):
     bsel = vs if run.tier == "thorough" else vs
     run_cases(run, "vf.props.C13", "s_case", [(c, bsel) for c in chunks], {}, chunk=1)
     rc = []
-    for kind in ("int", "dupint", "dupmax", "float", "str", "dt", "dt_off"):
+    for kind in ("int", "dupint", "dupmax", "float", "str", "dt", "dt_off", "dt_ms", "bigint"):
         for n, nin in ((24, 4), (24, 1), (25, 7), (9, 3), (12, 5), (24, (10, 4, 10)), (30, (12, 3, 15))):
-            for req in (("npartitions", 2), ("npartitions", 1), ("npartitions", 9), ("npartitions", 4), ("divisions", "coarser"), ("divisions", "finer"), ("divisions", "shifted"), ("divisions", "repeat-last"), ("divisions", "same"), ("force", None), ("partition_size", "0.3kB"), ("partition_size", "1kB")):
+            for req in (("npartitions", 2), ("npartitions", 1), ("npartitions", 9), ("npartitions", 4), ("divisions", "coarser"), ("divisions", "finer"), ("divisions", "shifted"), ("divisions", "repeat-last"), ("divisions", "same"), ("divisions", "unsorted"), ("force", None), ("partition_size", "0.3kB"), ("partition_size", "1kB")):
                 rc.append((kind, n, nin, req))
             for arg in ("mid", "thirds", "one", "near-end"):
                 rc.append((kind, n, nin, ("align", arg)))
-            if kind in ("dt", "dt_off"):
+            if kind in ("dt", "dt_off", "dt_ms"):
                 rc.append((kind, n, nin, ("freq", "1D")))
                 rc.append((kind, n, nin, ("freq", "2D")))
                 rc.append((kind, n, nin, ("freq", "12h")))
